@@ -30,6 +30,11 @@ async fn run_case(secs: u64, ops: &[String]) -> String {
     for op in ops {
         let (k, arg) = op.split_at(1);
         match k {
+            // S / R / X: the command without giving the timer task a turn before the next command (commands issued back to back by
+            // the session, with no await in between); only used directly in front of another command
+            "S" => { t.start(); out.push(format!("s{}", t.is_running() as u8)); }
+            "R" => { t.reset(); out.push(format!("r{}", t.is_running() as u8)); }
+            "X" => { t.stop_and_reset(); out.push(format!("x{}", t.is_running() as u8)); }
             "s" => { t.start(); settle().await; out.push(format!("s{}", t.is_running() as u8)); }
             "r" => { t.reset(); settle().await; out.push(format!("r{}", t.is_running() as u8)); }
             "x" => { t.stop_and_reset(); settle().await; out.push(format!("x{}", t.is_running() as u8)); }
@@ -58,17 +63,29 @@ pub fn run(args: &[String]) {
         Some("obs") => {
             let out = std::io::stdout();
             let mut out = out.lock();
+            let mut hangs = 0;
             for l in read_lines(&args[1]) {
                 let p: Vec<&str> = l.split_whitespace().collect();
                 if p.len() != 3 || p[0] != "TMR" { continue; }
                 let secs: u64 = p[1].parse().unwrap();
                 let ops: Vec<String> = p[2].split(',').map(|s| s.to_string()).collect();
-                let r = guard(|| {
-                    let rt = tokio::runtime::Builder::new_current_thread().enable_time().start_paused(true).build().unwrap();
-                    rt.block_on(run_case(secs, &ops))
-                }).unwrap_or_else(|| "PANIC".into());
+                // every case on a thread of its own with a wall-clock limit: a timer task that spins (it never yields, so the paused
+                // clock and the case's own timeouts cannot end it) is an observation - HANG - and not the end of the run.  The
+                // spinning thread cannot be stopped; after three of them the rest of the file is reported as SKIPPED.
+                if hangs >= 3 { writeln!(out, "{l} | SKIPPED").unwrap(); continue; }
+                let (tx, rx) = std::sync::mpsc::channel();
+                std::thread::spawn(move || {
+                    let r = guard(|| {
+                        let rt = tokio::runtime::Builder::new_current_thread().enable_time().start_paused(true).build().unwrap();
+                        rt.block_on(run_case(secs, &ops))
+                    }).unwrap_or_else(|| "PANIC".into());
+                    let _ = tx.send(r);
+                });
+                let r = match rx.recv_timeout(Duration::from_secs(30)) { Ok(r) => r, Err(_) => { hangs += 1; "HANG".into() } };
                 writeln!(out, "{l} | {r}").unwrap();
             }
+            out.flush().unwrap();
+            if hangs > 0 { std::process::exit(0); }
         }
         _ => { eprintln!("usage: observe c20 obs <cases>"); std::process::exit(2) }
     }
